@@ -209,7 +209,8 @@ def run(ctx):
     ctx.rule = ("A: fee / max fee / tier fee on rational parameter grids (integer and rational coefficients, prices, tier "
                 "parameters, sizes and reference bytes on tier and width boundaries); B: builder scenarios of vlib/bgen.py "
                 "(value transfers, mint with native scripts, withdrawals, certificates, metadata) plus width-boundary "
-                "scenarios with small fee coefficients, signed with every key; non-trivial = distinct case")
+                "scenarios with small fee coefficients, plus Plutus / native script scenarios of vlib/plutus_scen.py (witness, "
+                "reference, own-output and address-resolved scripts), signed with every key; non-trivial = distinct case")
     ctx.assumptions = ["ledger minimum fee = a*size + b + ceil(script price) + floor(tier fee) on the final bytes",
                        "reference-script bytes charged = scripts on reference inputs and spent inputs",
                        "float-valued protocol parameters are not exercised (exact rationals only); the tier loop's float "
@@ -221,6 +222,15 @@ def run(ctx):
         dispatch(ctx, gen_fee_case(rng))
     for i in range(ctx.budget(260, 9000)):
         sc = width_scenario(rng) if i % 3 == 0 else bgen.gen_value_scenario(rng)
+        dispatch(ctx, {"kind": "signed", "sc": sc})
+    # script transactions (vlib/plutus_scen.py): scripts in the witness set, on reference inputs (the same script on
+    # several reference UTxOs included), on the spent output itself, found at the script address; redeemers, datums,
+    # collateral, execution units supplied or estimated
+    from vlib import plutus_scen as P
+    for i in range(ctx.budget(160, 6000)):
+        sc = P.gen(rng)
+        sc.pop("x", None)
+        ctx.count("family:script")
         dispatch(ctx, {"kind": "signed", "sc": sc})
 
 
